@@ -27,7 +27,7 @@ Theorem C09_generated_from_op :
     Ok ((if dx_dump a then ODump else OOk)
           (map GO ((if mb then bin_forms g op this rhs output tr rr else []) ++
                    (if ma then if mb then [OpAssignFromBin g op this rhs true;
-                                           OpAssignFromBin g op this (TyRef None false rhs) true]
+                                           OpAssignFromBin g op this (ref_type rhs) true]
                                else [OpAssignFromBin g op this rhs_orig tr]
                     else [])))).
 Proof.
